@@ -92,6 +92,8 @@ def scan(ctx, report, facts, config, pfx="C19"):
     for b in cn.values():
         for bb, t in b.normal_calls():
             c = Callee(t["func"])
+            if c.local:
+                continue   # a helper of the crate that is handed the map: its own body is in the cone and is looked at there
             ty = I.recv_ty(t)
             if "AHashMap<std::string::String" in ty or "HashMap<std::string::String" in ty or "HashMap::<std::string::String" in c.inst_path:
                 names_used.add(c.name)
